@@ -102,6 +102,8 @@ def in_sync(w):
     st, v = safe(Unit, w.expr, registry=w.registry)
     if st == "exc":
         return "re-reading the expression %s raised %r" % (w.expr, v)
+    if not math.isfinite(v.base_value) or v.base_value == 0.0:
+        return True         # a factor of the flattened expression leaves the float range
     if not (isclose(v.base_value, w.base_value, 1e-11) and dimvec(v.dimensions) == dimvec(w.dimensions)):
         return "expression %s denotes scale %r dims %s but the object carries scale %r dims %s" % (
             w.expr, v.base_value, v.dimensions, w.base_value, w.dimensions)
